@@ -35,6 +35,9 @@ CHECKS = {
  "C04": ("exploration", "history explorer in child processes: per-step truthfulness predicates on Stats() + storage handles + stored bytes, bounded-progress predicates at quiescence (load canary), final convergence run; crashes and hangs via exit status / call watchdog / rain's own health check",
          "Regression shapes + enumerated + PRNG command histories (start, stop, verify, announce, addpeer, addtracker, stats, waits, corrupt/truncate/delete files while stopped, close+reopen) under slow Open/ReadAt/WriteAt and scripted tracker answers to 'stopped'. After every step one Stats() sample is judged (Seeding => all pieces stored and hashing; Stopped => no peers, downloads, handshakes, open data files; Bytes.Completed consistent with Pieces.Have); at quiescence the last of start/stop/verify must have taken effect, a verification must not request data; finally Start + reachable honest seed must end Seeding with byte-identical files. A child death is a crash violation keyed by panic text and rain frame.",
          "Mutations only while Stopped and quiescent. A Start issued while a verification is pending is not judged. One known finding: files corrupted/truncated while stopped are trusted on the next start (see known_findings.jsonl).", "4/C04"),
+ "C08": ("exploration", "fuzzing of the real peer reader with an allocation monitor (TotalAlloc delta per announced frame); attacked sessions in child processes with liveness oracles (honest transfer completes, Stats answers, exit status, rain's health check)",
+         "Generated byte streams (hostile field values, odd declared lengths, unknown ids, hostile bencoded extension payloads, deep nesting) are fed to the client's reader, followed by a frame header announcing up to 4 GiB with no body: the process may not allocate beyond the configured maximum message size. Sessions in six states (metadata unknown, allocating, verifying, downloading, seeding, stop/start mid-attack) are attacked by 1-3 scripted peers sending grammar-generated frame sequences incl. early-queued have/bitfield mixes, then an oversized header / truncated frame / garbage; an honest peer's transfer must complete with correct files, Stats() must keep answering, the process must not die.",
+         "Allocation is measured process-wide in a quiet child (256 KiB slack). The attack grammar is the scripted repertoire; a crash is keyed by normalised panic text and first rain frame.", "4/C08"),
 }
 PENDING = {}
 props = [json.loads(l) for l in open(os.path.join(V, 'properties.jsonl'))]
